@@ -24,6 +24,8 @@ Decide(mw, m) ==
     [] mw.k = "maxcontent" -> IF m.type = "EVENT" /\ m.clen > mw.l THEN "okfalse" ELSE "fwd"
     [] mw.k = "lower"      -> IF m.type = "EVENT" /\ m.age > mw.l THEN "okfalse" ELSE "fwd"
     [] mw.k = "upper"      -> IF m.type = "EVENT" /\ (0 - m.age) > mw.l THEN "okfalse" ELSE "fwd"
+    \* the window middleware NewEventCreatedAtMiddleware(from, to) with from = -l seconds and to = 0 ("not from the future")
+    [] mw.k = "window0"    -> IF m.type = "EVENT" /\ (m.age > mw.l \/ m.age < 0) THEN "okfalse" ELSE "fwd"
     [] OTHER               -> "fwd"
 
 RECURSIVE StackDecide(_, _)
@@ -38,12 +40,12 @@ Chain(lim) == IF ~lim.present THEN <<>>
                     Mw("maxlimit", lim.maxlimit), Mw("maxfilters", lim.filters) >>, LAMBDA w : w.l # 0)
 
 ---------------------------------------------------------------------------
-Kinds == {"maxfilters", "maxlimit", "maxsubid", "maxtags", "maxcontent", "lower", "upper"}
-LimitVals(k) == IF k \in {"lower", "upper"} THEN {60, 3600} ELSE {1, 2, 5}
+Kinds == {"maxfilters", "maxlimit", "maxsubid", "maxtags", "maxcontent", "lower", "upper", "window0"}
+LimitVals(k) == IF k \in {"lower", "upper", "window0"} THEN {60, 3600} ELSE {1, 2, 5}
 
 BaseMsg(t) == [type |-> t, nf |-> 1, lim |-> -1, subl |-> 1, ntags |-> 0, clen |-> 0, age |-> 0]
 \* sizes below / at / above a limit l (time limits: a safety margin of 5 s around the moving boundary)
-Around(k, l) == IF k \in {"lower", "upper"} THEN {l - 5, l + 5} ELSE {l - 1, l, l + 1}
+Around(k, l) == IF k \in {"lower", "upper"} THEN {l - 5, l + 5} ELSE IF k = "window0" THEN {l - 5, l + 5, 5, 0 - 5} ELSE {l - 1, l, l + 1}
 Sized(t, k, v) ==
   CASE k = "maxfilters" -> [BaseMsg(t) EXCEPT !.nf = v]
     [] k = "maxlimit"   -> [BaseMsg(t) EXCEPT !.lim = v]
@@ -52,17 +54,18 @@ Sized(t, k, v) ==
     [] k = "maxcontent" -> [BaseMsg(t) EXCEPT !.clen = v]
     [] k = "lower"      -> [BaseMsg(t) EXCEPT !.age = v]
     [] k = "upper"      -> [BaseMsg(t) EXCEPT !.age = 0 - v]
+    [] k = "window0"    -> [BaseMsg(t) EXCEPT !.age = v]
 Types == {"EVENT", "REQ", "COUNT", "CLOSE", "AUTH"}
 
 \* Extreme stands for the far end of the int64 range of created_at (age Extreme: the oldest possible
 \* timestamp, age -Extreme: the newest); the harness maps it, TLC integers being 32 bit
 Extreme == 2000000000
 SingleCases == {[stack |-> <<Mw(k, l)>>, m |-> Sized(t, k, v), d |-> Decide(Mw(k, l), Sized(t, k, v))] :
-                  k \in Kinds, l \in {1, 2, 5, 60, 3600}, t \in Types, v \in {0, 1, 2, 3, 4, 5, 6, 55, 65, 3595, 3605, Extreme, 0 - Extreme}}
+                  k \in Kinds, l \in {1, 2, 5, 60, 3600}, t \in Types, v \in {0, 1, 2, 3, 4, 5, 6, 55, 65, 3595, 3605, 0 - 5, Extreme, 0 - Extreme}}
 RelevantSingle == {c \in SingleCases : c.stack[1].l \in LimitVals(c.stack[1].k) /\ c.m[CASE c.stack[1].k = "maxfilters" -> "nf" [] c.stack[1].k = "maxlimit" -> "lim"
                       [] c.stack[1].k = "maxsubid" -> "subl" [] c.stack[1].k = "maxtags" -> "ntags" [] c.stack[1].k = "maxcontent" -> "clen" [] OTHER -> "age"]
                       \in (IF c.stack[1].k = "upper" THEN {0 - x : x \in Around(c.stack[1].k, c.stack[1].l) \cup {Extreme, 0 - Extreme}}
-                           ELSE IF c.stack[1].k = "lower" THEN Around(c.stack[1].k, c.stack[1].l) \cup {Extreme, 0 - Extreme}
+                           ELSE IF c.stack[1].k \in {"lower", "window0"} THEN Around(c.stack[1].k, c.stack[1].l) \cup {Extreme, 0 - Extreme}
                            ELSE Around(c.stack[1].k, c.stack[1].l))
                       /\ (c.stack[1].k \in {"maxfilters"} => c.m.nf >= 1) /\ (c.stack[1].k = "maxsubid" => c.m.subl >= 0)}
 
